@@ -985,11 +985,14 @@ def lean_errors(path):
     """line numbers of the errors Lean reports for the generated file"""
     import subprocess
     proj = os.path.dirname(os.path.dirname(os.path.abspath(path)))
-    try:
-        r = subprocess.run(["lake", "env", "lean", os.path.abspath(path)], cwd=proj, capture_output=True, text=True, timeout=600)
+    mod = "Kanal." + os.path.basename(path)[:-5]
+    try:                                                      # `lake build` brings the imported modules up to date first
+        r = subprocess.run(["lake", "build", mod], cwd=proj, capture_output=True, text=True, timeout=900)
     except Exception as ex:                                   # no Lean available: nothing to validate against
         return []
-    return [int(m.group(1)) for m in re.finditer(r":(\d+):\d+: error", r.stdout + r.stderr)]
+    base = os.path.basename(path)
+    return [int(m.group(1)) for m in re.finditer(re.escape(base) + r":(\d+):\d+", r.stdout + r.stderr)
+            if "error" in (r.stdout + r.stderr)[max(0, m.start() - 40):m.start()]]
 
 
 def main():
